@@ -1,4 +1,6 @@
 //! Reference models, written from the property text / Quil specification.
 
 pub mod eval;
+pub mod frames;
+pub mod mem;
 pub mod unitary;
